@@ -208,7 +208,11 @@ class Cond:
         self.op, self.a, self.b, self.neg, self.text = op, a, b, neg, text
 
     def negate(self):
-        return Cond(self.op, self.a, self.b, not self.neg, self.text)
+        c = Cond(self.op, self.a, self.b, not self.neg, self.text)
+        for k in ("subject", "pts"):
+            if hasattr(self, k):
+                setattr(c, k, getattr(self, k))
+        return c
 
     def key(self):
         return f"{'!' if self.neg else ''}{self.op}({self.a},{self.b}){self.text}"
